@@ -34,7 +34,9 @@
 #define COLON 0
 #endif
 
-#if NE == 1
+#if NE == 0
+#define IMGLEN 0                     /* control file absent or empty: constmap_init(cm,"",0,flag) */
+#elif NE == 1
 #define IMGLEN (ELEN0 + 1)
 #elif NE == 2
 #define IMGLEN (ELEN0 + 1 + ELEN1 + 1)
@@ -118,7 +120,10 @@ static int key_is(unsigned int e, const unsigned char *s, unsigned int n)
 
 void vmain(void)
 {
-  struct constmap cm;
+  struct constmap cm, cm0;
+  static int s_first[64]; static char *s_input[NE + 1]; static int s_inputlen[NE + 1];
+  static constmap_hash s_hash[NE + 1]; static int s_next[NE + 1]; static unsigned char s_img[IMGLEN + 1];
+  int same;
   unsigned int e, f, k;
   char *r;
   int found = -1;
@@ -137,7 +142,21 @@ void vmain(void)
         ASSUME(!key_is(f, img + estart(e), (unsigned int) keylen(e)));
 
   CHECK(constmap_init(&cm, (char *) img, IMGLEN, COLON) == 1, "constmap_init succeeds when memory is available");
+  for (k = 0; k < 64; ++k) s_first[k] = a_first[k];
+  for (k = 0; k < NE + 1; ++k) { s_input[k] = a_input[k]; s_inputlen[k] = a_inputlen[k]; s_hash[k] = a_hash[k]; s_next[k] = a_next[k]; }
+  for (k = 0; k < IMGLEN + 1; ++k) s_img[k] = img[k];
+  cm0 = cm;
+
   r = constmap(&cm, (char *) q, QL);
+
+  /* a lookup changes nothing: the table answers any number of lookups the same way */
+  same = cm.num == cm0.num && cm.mask == cm0.mask && cm.hash == cm0.hash && cm.first == cm0.first
+         && cm.next == cm0.next && cm.input == cm0.input && cm.inputlen == cm0.inputlen;
+  for (k = 0; k < 64; ++k) if (s_first[k] != a_first[k]) same = 0;
+  for (k = 0; k < NE + 1; ++k)
+    if (s_input[k] != a_input[k] || s_inputlen[k] != a_inputlen[k] || s_hash[k] != a_hash[k] || s_next[k] != a_next[k]) same = 0;
+  for (k = 0; k < IMGLEN + 1; ++k) if (s_img[k] != img[k]) same = 0;
+  CHECK(same, "C10(lemma): constmap() does not modify the table or the control-file image");
 
   for (e = 0; e < NE; ++e) if (key_is(e, q, QL)) found = (int) e;
 
@@ -151,7 +170,9 @@ void vmain(void)
           "C10(lemma): the value returned is the text after the first colon of that entry");
 #endif
     if (found == NE - 1) WITNESS("listed_last");
-    if (found == 0 && QL > 0 && q[0] != img[0]) WITNESS("listed_other_case");
+#if QL > 0
+    if (found == 0 && q[0] != img[0]) WITNESS("listed_other_case");
+#endif
     WITNESS("listed");
   }
 }
